@@ -180,6 +180,10 @@ func (e *env) runTxnInner(calls []Call) (string, string) {
 			case "nested":
 				// a handler that goes on working with the transaction it is handed: one more call, with its own id and result
 				nested[result.Op] = t.Get(key)
+			case "nested+err":
+				// ... and then fails: the error belongs to the operation whose handler this is, not to the call it made
+				nested[result.Op] = t.Get(key)
+				return errHandler
 			case "check":
 				// a handler that acts on what it is given: a failed operation makes it abort the transaction
 				if result.Err != nil {
@@ -210,7 +214,7 @@ func (e *env) runTxnInner(calls []Call) (string, string) {
 				x.wantErr = "aborted"
 			} else if v, ok := e.model[c.Key]; ok {
 				x.wantVal = v
-				if c.Handler == "err" || c.Handler == "abort+err" {
+				if c.Handler == "err" || c.Handler == "abort+err" || c.Handler == "nested+err" {
 					x.wantErr = "handler"
 				}
 			} else {
@@ -225,7 +229,7 @@ func (e *env) runTxnInner(calls []Call) (string, string) {
 				aborted = true
 			}
 			exp = append(exp, x)
-			if c.Handler == "nested" && x.wantErr != "aborted" {
+			if (c.Handler == "nested" || c.Handler == "nested+err") && x.wantErr != "aborted" {
 				nid, ok := nested[x.id]
 				if !ok {
 					return "handler:not-called", fmt.Sprintf("call %+v: its handler was not run", c)
@@ -262,7 +266,7 @@ func (e *env) runTxnInner(calls []Call) (string, string) {
 				} else {
 					e.model[c.Key] = c.Val
 				}
-				if c.Handler == "err" || c.Handler == "abort+err" {
+				if c.Handler == "err" || c.Handler == "abort+err" || c.Handler == "nested+err" {
 					x.wantErr = "handler"
 				}
 			}
@@ -275,7 +279,7 @@ func (e *env) runTxnInner(calls []Call) (string, string) {
 				aborted = true
 			}
 			exp = append(exp, x)
-			if c.Handler == "nested" && x.wantErr != "aborted" {
+			if (c.Handler == "nested" || c.Handler == "nested+err") && x.wantErr != "aborted" {
 				nid, ok := nested[x.id]
 				if !ok {
 					return "handler:not-called", fmt.Sprintf("call %+v: its handler was not run", c)
@@ -416,7 +420,7 @@ func genCalls(t *rapid.T) []Call {
 		case 0, 1, 2, 3:
 			c := Call{K: "get", Key: rapid.SampledFrom(keys).Draw(t, "key")}
 			if rapid.Bool().Draw(t, "withHandler") {
-				c.Handler = rapid.SampledFrom([]string{"ok", "ok", "check", "check", "err", "abort", "abort+err", "nested", "nested"}).Draw(t, "handler")
+				c.Handler = rapid.SampledFrom([]string{"ok", "ok", "check", "check", "err", "abort", "abort+err", "nested", "nested", "nested+err"}).Draw(t, "handler")
 			}
 			calls = append(calls, c)
 		case 4, 5, 6, 7:
@@ -424,7 +428,7 @@ func genCalls(t *rapid.T) []Call {
 			c.Delete = rapid.IntRange(0, 4).Draw(t, "delete") == 0
 			c.BadData = !c.Delete && rapid.IntRange(0, 5).Draw(t, "baddata") == 0
 			if rapid.Bool().Draw(t, "withHandler") {
-				c.Handler = rapid.SampledFrom([]string{"ok", "ok", "check", "check", "err", "abort", "abort+err", "nested", "nested"}).Draw(t, "handler")
+				c.Handler = rapid.SampledFrom([]string{"ok", "ok", "check", "check", "err", "abort", "abort+err", "nested", "nested", "nested+err"}).Draw(t, "handler")
 			}
 			calls = append(calls, c)
 		default:
@@ -446,7 +450,7 @@ func run(t *testing.T, impl string) {
 			if c.K == "set" {
 				sets++
 			}
-			if c.Handler == "err" || c.Handler == "abort" || c.Handler == "abort+err" || c.Handler == "nested" {
+			if c.Handler == "err" || c.Handler == "abort" || c.Handler == "abort+err" || c.Handler == "nested" || c.Handler == "nested+err" {
 				handlers++
 				rec.Class("handler:" + c.Handler)
 			}
